@@ -9,6 +9,7 @@ usage: seed_eval.py <property id> <dir with patch.diff, demo.py, README.md> [oth
 import json, os, re, shutil, subprocess, sys, tempfile, time
 
 pid, src = sys.argv[1], sys.argv[2]
+tag = os.environ.get("SEED_TAG", "")
 others = sys.argv[3:]
 V = "/verif"
 wt = tempfile.mkdtemp(prefix="seedwt_")
@@ -23,7 +24,7 @@ try:
         return p.returncode, (p.stdout + p.stderr)[-600:]
     # demos may refer to their own worktree path: rewrite it
     d = open(os.path.join(src, "demo.py")).read()
-    d2 = re.sub(r"/tmp/wt/C\d\d", wt, d)
+    d2 = re.sub(r"/tmp/wt2?/C\d\d", wt, d)
     os.makedirs(os.path.join(wt, "seed"), exist_ok=True)          # same relative location as in the agent's worktree
     demo_path = os.path.join(wt, "seed", "demo.py")
     open(demo_path, "w").write(d2)
@@ -57,7 +58,7 @@ try:
     meta["detected_by"] = [c for c, r in res.items() if r["exit"] == 1]
 finally:
     subprocess.run(["git", "-C", "/repo", "worktree", "remove", "--force", wt])
-dst = os.path.join(V, "seeded", pid)
+dst = os.path.join(V, "seeded", pid + tag)
 os.makedirs(dst, exist_ok=True)
 for f in ("patch.diff", "demo.py", "README.md"):
     if os.path.exists(os.path.join(src, f)):
